@@ -119,7 +119,7 @@ func RenderODT(d Doc) Rendered {
 	fmt.Fprintf(&s, `<office:document-styles %s office:version="1.2"><office:styles>`, odfNS)
 	s.WriteString(`<style:style style:name="Standard" style:family="paragraph" style:class="text"/>`)
 	s.WriteString(`<style:style style:name="Heading" style:family="paragraph" style:parent-style-name="Standard" style:class="text"/>`)
-	for n := 1; n <= 6 && len(d.Sheet) == 0; n++ { // (a document with its own sheet defines its heading styles itself)
+	for n := 1; n <= 10 && len(d.Sheet) == 0; n++ { // (a document with its own sheet defines its heading styles itself)
 		fmt.Fprintf(&s, `<style:style style:name="Heading_20_%d" style:display-name="Heading %d" style:family="paragraph" style:parent-style-name="Heading" style:default-outline-level="%d" style:class="text"/>`, n, n, n)
 		fmt.Fprintf(&s, `<style:style style:name="Custom%da" style:display-name="Custom %c A" style:family="paragraph" style:parent-style-name="Heading_20_%d"/>`, n, 'A'+n-1, n)
 	}
